@@ -344,7 +344,23 @@ def r09_3(ctx, repo):
 
     def strip(v):
         return tuple(Seg(x.src, x.lo, x.hi, x.tf) for x in v)
-    if any(a is None for a in alts):
+    by_request = [l for l in ast.walk(fn) if isinstance(l, ast.For)
+                  and 'parameter_names' in [a.arg for a in fn.args.args]
+                  and any(isinstance(x, ast.Name) and x.id ==
+                          'parameter_names' for x in ast.walk(l.iter))
+                  and any(isinstance(c, ast.Call) and isinstance(
+                      c.func, ast.Attribute) and c.func.attr in (
+                      'append', 'extend') for c in ast.walk(l))]
+    if any(a is None for a in alts) and by_request:
+        ctx.violation(
+            rule, repo.loc(by_request[0], CLS, fn.name), construct,
+            'request order',
+            'the parameters handed to the solver are collected by walking '
+            'the caller\'s `parameter_names` (`%s`): the derivative columns '
+            'come back in the order of the request, not in the published '
+            'order of parameters() that every consumer (reduced models, '
+            'likelihoods) assumes' % norm_stmt(by_request[0])[:60])
+    elif any(a is None for a in alts):
         ctx.error(rule, '%s: construction of the requested parameter list '
                   '`%s` not recognised' % (construct, U(tup.elts[1])[:40]))
     elif all(strip(a) == want for a in alts):
@@ -624,7 +640,9 @@ def r09_6(ctx, repo):
                              or cont.replace(' ', '') in (
                                  'self.%ss()' % kind,
                                  'self.%s_names()' % kind))
-                raw = 'self._%s_names' % kind in cont
+                raw = 'self._%s_names' % kind in cont or cont.replace(
+                    ' ', '') in ('self._%s_name_map' % kind,
+                                 'self._%s_name_map.keys()' % kind)
                 if published:
                     ctx.ok(rule, where, construct,
                            'clash test consults the published %s names'
@@ -632,11 +650,12 @@ def r09_6(ctx, repo):
                 elif raw:
                     ctx.violation(
                         rule, where, construct, 'clash table',
-                        '`%s` tests the new name against `%s`, the '
-                        'immutable myokit names; after a first renaming the '
-                        'published names differ from them, so a name can be '
-                        'published twice and renaming back is refused' % (
-                            U(c)[:60], cont))
+                        '`%s` looks a caller-supplied name up in `%s`, the '
+                        'immutable myokit names (the keys of the name map); '
+                        'after a first renaming the published names differ '
+                        'from them, so a name can be published twice, a '
+                        'renamed entry can no longer be addressed and '
+                        'renaming back is refused' % (U(c)[:60], cont))
                 else:
                     ctx.error(rule, '%s: membership test on `%s` not '
                               'classified' % (construct, cont[:40]))
@@ -662,6 +681,11 @@ def r09_7(ctx, repo):
         if fn is not None and 'parameter_names' in [
                 a.arg for a in fn.args.args]:
             construct = '%s.enable_sensitivities' % cls
+            if any(isinstance(l, ast.For) and any(
+                    isinstance(x, ast.Name) and x.id == 'parameter_names'
+                    for x in ast.walk(l.iter)) for l in ast.walk(fn)):
+                # the request itself is walked: its order is R09.3's finding
+                n += 1
             for l in ast.walk(fn):
                 if not isinstance(l, ast.For):
                     continue
